@@ -42,7 +42,7 @@ def marked_programs(draw):
         for j in range(draw(st.integers(1, 3))):
             # names are string literals: blanks, both quote characters, a line break (spelled as an escape), comment
             # openers and non-ASCII letters are legitimate in them
-            deco = draw(st.sampled_from(["", "", "", " gate", ' the "old" one', " it's", " \u00e9\u65e5", "\nsecond line", " a//b /*c", " {x} <y>, 1.5"]))
+            deco = draw(st.sampled_from(["", "", "", " gate", ' the "old" one', " it's", " \u00e9\u65e5", "\nsecond line", " a//b /*c", " {x} <y>, 1.5", " Cafe\u0301", " \u1100\u1161\u11a8", " a\u0308\u0323"]))
             args.append({"t": "pos", "name": f"x{k}_{j}" + deco, "x": draw(st.integers(-5, 90)), "xh": draw(st.booleans()),
                          "y": draw(st.integers(-5, 90)), "yh": draw(st.booleans())})
             if draw(st.booleans()):
